@@ -21,7 +21,7 @@ func StdPrograms(tier string) []*Schema {
 		ps = append(ps, ProgMaps(k))
 	}
 	// 2^29-1 in both tiers: field numbers >= 2^28 are the ones whose 5-byte tag does not fit an int32 once shifted
-	ps = append(ps, ProgNested(), ProgBigID(2048), ProgBigID(262144), ProgBigID(1<<29-1))
+	ps = append(ps, ProgNested(), ProgWide(), ProgBigID(2048), ProgBigID(262144), ProgBigID(1<<29-1))
 	if tier == "thorough" {
 		ps = append(ps, ProgBigID(1<<25), ProgBigID(1<<28))
 	}
@@ -68,6 +68,39 @@ func StdMessages(s *Schema, tier string) []NV {
 		for _, nv := range nestedMessages(s) {
 			add(nv.Name, nv.V)
 		}
+	case s.ID == "wide":
+		all := MsgVal(root)
+		for i, f := range root.Fields {
+			switch {
+			case f.Card == Single && f.Kind == KString:
+				all.Set(f, Str(fmt.Sprintf("w%d", i)))
+			case f.Card == Single:
+				all.Set(f, Int(f.Kind, int64(i*131-300)))
+			case f.Card == Repeated:
+				l := ListOf(f)
+				for j := 0; j < 70; j++ {
+					if f.Kind == KString {
+						l.L = append(l.L, Str(fmt.Sprintf("e%d", j)))
+					} else {
+						l.L = append(l.L, Int(f.Kind, int64(j*j*97-50)))
+					}
+				}
+				all.Set(f, l)
+				add("wide-list", MsgVal(root).Set(f, l))
+			default:
+				m := MapOf(f)
+				for j := 0; j < 70; j++ {
+					if f.Key == KString {
+						m.Put(Str(fmt.Sprintf("key%02d", j)), Int(f.Kind, int64(j)))
+					} else {
+						m.Put(Int(f.Key, int64(j*13-100)), Int(f.Kind, int64(j)))
+					}
+				}
+				all.Set(f, m)
+				add("wide-map", MsgVal(root).Set(f, m))
+			}
+		}
+		add("wide-all", all)
 	case strings.HasPrefix(s.ID, "bigid"):
 		add("empty", MsgVal(root))
 		all := MsgVal(root)
